@@ -1,8 +1,10 @@
 package nc
 
 import (
+	"fmt"
 	"go/token"
 	"go/types"
+	"sort"
 
 	"golang.org/x/tools/go/ssa"
 )
@@ -416,4 +418,360 @@ func c20FreshStructValue(v ssa.Value, l *Loop, avoid *types.Var) bool {
 		}
 	}
 	return true
+}
+
+// ---------------------------------------------------------------------------
+// Second robustness round
+//
+// (1) receivers of the observer notifications: `if observer != nil { observer.X() }` and the null-object form
+//     `o := observer; if o == nil { o = noop{} }; ...; o.X()` are the same protocol. What the rules claim about a
+//     notification site is (a) with an observer present the call is delivered to that observer, (b) without an
+//     observer nothing is delivered (and nothing is dereferenced). c20RecvLeaves decomposes the receiver of a site
+//     into the values that can flow into it together with the CFG edge on which each of them is chosen, so that
+//     both claims can be decided by the flag-sensitive path search on those edges.
+// (2) "the error of X is returned": decided on every path after the failing call instead of by looking for a
+//     `return <that very SSA value>` (the value may travel through the result variable of an inlined helper).
+// (3) the executor selection: a `return a, b` whose operands are phis (named results, single exit) is split into
+//     one leaf per way the operands can be chosen, with the branch outcomes known on that way.
+
+// c20RecvLeaf: value Val can be the receiver; it is selected when the edge From->To is taken (From == nil: the
+// value is the receiver operand itself, selected whenever the site executes).
+type c20RecvLeaf struct {
+	Val      ssa.Value
+	From, To *ssa.BasicBlock
+}
+
+func c20RecvLeaves(v ssa.Value) []c20RecvLeaf {
+	strip := func(x ssa.Value) ssa.Value {
+		for {
+			ct, ok := x.(*ssa.ChangeType)
+			if !ok {
+				return x
+			}
+			x = ct.X
+		}
+	}
+	v = strip(v)
+	ph, ok := v.(*ssa.Phi)
+	if !ok {
+		return []c20RecvLeaf{{Val: v}}
+	}
+	var out []c20RecvLeaf
+	seen := map[*ssa.Phi]bool{}
+	var visit func(q *ssa.Phi)
+	visit = func(q *ssa.Phi) {
+		if seen[q] {
+			return
+		}
+		seen[q] = true
+		for i, e := range q.Edges {
+			e = strip(e)
+			if inner, isPhi := e.(*ssa.Phi); isPhi {
+				visit(inner)
+				continue
+			}
+			out = append(out, c20RecvLeaf{Val: e, From: q.Block().Preds[i], To: q.Block()})
+		}
+	}
+	visit(ph)
+	return out
+}
+
+// c20NoopMethod: the method `name` of the dynamic type wrapped by mi has no effect at all (its body, and the body
+// of whatever a promotion/pointer wrapper forwards to, only returns).
+func c20NoopMethod(p *Prog, mi *ssa.MakeInterface, name string) bool {
+	T := mi.X.Type()
+	ms := p.SSA.MethodSets.MethodSet(T)
+	var fn *ssa.Function
+	for i := 0; i < ms.Len(); i++ {
+		if ms.At(i).Obj().Name() == name {
+			fn = p.SSA.MethodValue(ms.At(i))
+		}
+	}
+	return fn != nil && c20EffectFree(fn, 0)
+}
+
+func c20EffectFree(fn *ssa.Function, depth int) bool {
+	if depth > 3 || len(fn.Blocks) == 0 || fn.Recover != nil {
+		return false
+	}
+	for _, b := range fn.Blocks {
+		for _, in := range b.Instrs {
+			switch x := in.(type) {
+			case *ssa.Return, *ssa.DebugRef, *ssa.Jump, *ssa.If, *ssa.Phi, *ssa.FieldAddr, *ssa.Field, *ssa.BinOp, *ssa.ChangeType:
+			case *ssa.UnOp:
+				if x.Op == token.ARROW {
+					return false
+				}
+			case *ssa.Call:
+				if bi, ok := x.Call.Value.(*ssa.Builtin); ok && bi.Name() == "ssa:wrapnilchk" {
+					continue
+				}
+				callee := x.Call.StaticCallee()
+				if callee == nil || !c20EffectFree(callee, depth+1) {
+					return false
+				}
+			default:
+				return false
+			}
+		}
+	}
+	return true
+}
+
+// c20RecvVerdict is what is known about the receiver of one notification site.
+type c20RecvVerdict struct {
+	NilSafe  bool // without an observer: the site is not executed, or it addresses a substitute whose method does nothing
+	NilWhy   string
+	NilPath  []string
+	Identity bool // with an observer: the receiver is that observer
+	IdWhy    string
+	IdPath   []string
+}
+
+func c20CheckReceiver(p *Prog, fn *ssa.Function, site ssa.CallInstruction, observer ssa.Value, method string, explored *int) c20RecvVerdict {
+	v := c20RecvVerdict{NilSafe: true, Identity: true}
+	reach := func(lf c20RecvLeaf, nonNil, isNil []ssa.Value) []string {
+		q := PathQuery{Fn: fn, NonNil: nonNil, IsNil: isNil, Explored: explored}
+		if lf.From == nil {
+			q.Target = func(in ssa.Instruction) bool { return in == ssa.Instruction(site) }
+		} else {
+			q.TargetEdge = func(a, b *ssa.BasicBlock) bool { return a == lf.From && b == lf.To }
+		}
+		return FindPath(p, q)
+	}
+	failNil := func(why string, path []string) {
+		if v.NilSafe {
+			v.NilSafe, v.NilWhy, v.NilPath = false, why, path
+		}
+	}
+	failID := func(why string, path []string) {
+		if v.Identity {
+			v.Identity, v.IdWhy, v.IdPath = false, why, path
+		}
+	}
+	for _, lf := range c20RecvLeaves(site.Common().Value) {
+		switch x := lf.Val.(type) {
+		case *ssa.Parameter:
+			if ssa.Value(x) != observer {
+				failNil("the receiver can be "+x.Name()+", which is not the observer", nil)
+				failID("the receiver can be "+x.Name()+", which is not the observer", nil)
+				continue
+			}
+			// the observer itself: must not be selected when it is nil
+			if path := reach(lf, nil, []ssa.Value{observer}); path != nil {
+				failNil(method+" is reachable with a nil observer (nil dereference)", path)
+			}
+		case *ssa.MakeInterface:
+			// a substitute: only when there is no observer, and it must ignore the notification
+			if !c20NoopMethod(p, x, method) {
+				failNil("without an observer "+method+" is delivered to a "+x.X.Type().String()+" whose method is not empty", nil)
+			}
+			if path := reach(lf, []ssa.Value{observer}, nil); path != nil {
+				failID("with an observer present "+method+" can be delivered to a "+x.X.Type().String()+" instead of the observer", path)
+			}
+		default:
+			failNil("the receiver can be "+lf.Val.String()+", which is neither the observer nor a fresh substitute", nil)
+			failID("the receiver can be "+lf.Val.String()+", which is not the observer", nil)
+		}
+	}
+	return v
+}
+
+// c20ErrReturned: on every path that starts right after the call `s` under the assumption that its error result
+// errV is non-nil, the Return that ends the path returns exactly errV (phis are resolved along the path, branch
+// conditions on values known along the path - nil tests of the error, boolean flags - are decided); at least one
+// such Return exists. Paths that come back to an already visited state are not followed (what may happen after an
+// error before the function returns is the business of the `error-stops` obligation).
+func c20ErrReturned(p *Prog, s ssa.Instruction, errV ssa.Value) (bool, string) {
+	type bind map[*ssa.Phi]ssa.Value
+	resolve := func(b bind, v ssa.Value) ssa.Value {
+		for {
+			ct, ok := v.(*ssa.ChangeType)
+			if !ok {
+				break
+			}
+			v = ct.X
+		}
+		if ph, ok := v.(*ssa.Phi); ok {
+			if r, bound := b[ph]; bound {
+				return r
+			}
+		}
+		return v
+	}
+	const (
+		unknown = iota
+		isNil
+		nonNil
+	)
+	nilness := func(b bind, v ssa.Value) int {
+		r := resolve(b, v)
+		if r == errV {
+			return nonNil
+		}
+		switch x := r.(type) {
+		case *ssa.Const:
+			if x.Value == nil {
+				switch x.Type().Underlying().(type) {
+				case *types.Pointer, *types.Interface, *types.Slice, *types.Map, *types.Signature:
+					return isNil
+				}
+			}
+		case *ssa.MakeInterface, *ssa.Alloc:
+			return nonNil
+		}
+		return unknown
+	}
+	var evalCond func(b bind, c ssa.Value) (bool, bool)
+	evalCond = func(b bind, c ssa.Value) (bool, bool) {
+		r := resolve(b, c)
+		switch x := r.(type) {
+		case *ssa.Const:
+			if IsConstBool(x, true) {
+				return true, true
+			}
+			if IsConstBool(x, false) {
+				return false, true
+			}
+		case *ssa.UnOp:
+			if x.Op == token.NOT {
+				v, ok := evalCond(b, x.X)
+				return !v, ok
+			}
+		case *ssa.BinOp:
+			if x.Op != token.EQL && x.Op != token.NEQ {
+				return false, false
+			}
+			l, r := nilness(b, x.X), nilness(b, x.Y)
+			if l == unknown || r == unknown || (l == nonNil && r == nonNil) {
+				return false, false
+			}
+			eq := l == isNil && r == isNil
+			return eq == (x.Op == token.EQL), true
+		}
+		return false, false
+	}
+	name := func(v ssa.Value) string {
+		if c, ok := v.(*ssa.Const); ok {
+			return c.String()
+		}
+		return v.Name()
+	}
+	seen := map[string]bool{}
+	states, returns, why := 0, 0, ""
+	var walk func(blk, from *ssa.BasicBlock, idx int, b bind)
+	walk = func(blk, from *ssa.BasicBlock, idx int, b bind) {
+		if why != "" {
+			return
+		}
+		if from != nil {
+			nb := bind{}
+			for k, v := range b {
+				nb[k] = v
+			}
+			for _, in := range blk.Instrs {
+				ph, ok := in.(*ssa.Phi)
+				if !ok {
+					break
+				}
+				for i, pr := range blk.Preds {
+					if pr == from {
+						nb[ph] = resolve(b, ph.Edges[i])
+						break
+					}
+				}
+			}
+			b = nb
+			var ks []string
+			for k, v := range b {
+				ks = append(ks, k.Name()+"="+name(v))
+			}
+			sort.Strings(ks)
+			key := fmt.Sprint(blk.Index, ks)
+			if seen[key] {
+				return
+			}
+			seen[key] = true
+			if states++; states > 50000 {
+				why = "too many paths after the failing call"
+				return
+			}
+		}
+		for i := idx; i < len(blk.Instrs); i++ {
+			switch x := blk.Instrs[i].(type) {
+			case *ssa.Return:
+				returns++
+				if len(x.Results) == 0 || resolve(b, x.Results[0]) != errV {
+					got := "nothing"
+					if len(x.Results) > 0 {
+						got = resolve(b, x.Results[0]).String()
+					}
+					why = "a path after the failing call returns " + got + " @" + p.Pos(x.Pos())
+				}
+				return
+			case *ssa.If:
+				if val, known := evalCond(b, x.Cond); known {
+					if val {
+						walk(blk.Succs[0], blk, 0, b)
+					} else {
+						walk(blk.Succs[1], blk, 0, b)
+					}
+					return
+				}
+			}
+		}
+		for _, s := range blk.Succs {
+			walk(s, blk, 0, b)
+		}
+	}
+	walk(s.Block(), nil, instrIndex(s)+1, bind{})
+	if why != "" {
+		return false, why
+	}
+	if returns == 0 {
+		return false, "no return is reachable after the failing call"
+	}
+	return true, ""
+}
+
+// c20RetLeaf: one way the operands of a Return can be chosen (phis among them resolved over the incoming edges of
+// their blocks), with the branch outcomes known on that way.
+type c20RetLeaf struct {
+	Ret    *ssa.Return
+	Vals   []ssa.Value
+	Guards []Guard
+}
+
+func c20ReturnLeaves(ret *ssa.Return) []c20RetLeaf {
+	var out []c20RetLeaf
+	var walk func(vals []ssa.Value, gs []Guard, depth int)
+	walk = func(vals []ssa.Value, gs []Guard, depth int) {
+		// the phi closest to the return first
+		var ph *ssa.Phi
+		for _, v := range vals {
+			if q, ok := v.(*ssa.Phi); ok {
+				if ph == nil || (ph.Block() != q.Block() && ph.Block().Dominates(q.Block())) {
+					ph = q
+				}
+			}
+		}
+		if ph == nil || depth > 8 {
+			out = append(out, c20RetLeaf{Ret: ret, Vals: vals, Guards: gs})
+			return
+		}
+		B := ph.Block()
+		for i, pred := range B.Preds {
+			nv := append([]ssa.Value{}, vals...)
+			for j, v := range vals {
+				if q, ok := v.(*ssa.Phi); ok && q.Block() == B {
+					nv[j] = q.Edges[i]
+				}
+			}
+			ng := append(append([]Guard{}, gs...), condsAt(pred, B)...)
+			walk(nv, ng, depth+1)
+		}
+	}
+	walk(ret.Results, append([]Guard{}, Guards(ret.Block())...), 0)
+	return out
 }
